@@ -137,3 +137,33 @@ func VerifSearchSnapshotVsWarmCache() {
 	vassert("search-overlapping-a-commit-does-not-fail", serr == nil)
 	vassert("search-overlapping-a-commit-returns-committed-points", serr != nil || n == 1 || n == 2)
 }
+
+// C01/C09: two insert batches carrying the same new id, issued concurrently: the storage layer
+// admits one writer at a time, so exactly one of them succeeds and the id is stored once.
+func VerifConcurrentInsertsSameId() {
+	s, _ := verifShard(verifSchema())
+	id := nondetUUID()
+	vsched(vparam("DELAYS", 0))
+	var wg sync.WaitGroup
+	errs := make([]error, 2)
+	for i := 0; i < 2; i++ {
+		wg.Add(1)
+		go func(i int) {
+			defer wg.Done()
+			errs[i] = s.InsertPoints([]models.Point{{Id: id, Data: vdoc(map[string]any{"price": int64(i)})}})
+		}(i)
+	}
+	wg.Wait()
+	vcover("reached")
+	ok := 0
+	for _, e := range errs {
+		if e == nil {
+			ok++
+		}
+	}
+	vassert("exactly-one-of-two-inserts-of-the-same-id-succeeds", ok == 1)
+	info, err := s.Info()
+	vassert("id-counted-once", err == nil && info.PointCount == 1)
+	found, _, rerr := readDoc(s, id)
+	vassert("id-readable", rerr == nil && found)
+}
